@@ -37,7 +37,7 @@ package raft
 //@ pure CutAt(n *newEntry, o *newEntry, h *newEntry) bool = (o == h ==> n == nil) && (o != h ==> n == o)
 //@ pure Before(x *newEntry, ne *newEntry) bool = ne == nil || x.gpos < ne.gpos
 
-//@ func (*leader).applyCommitted
+//@ func (*leader).applyCommitted params(l)
 //@   requires l.Raft != nil && l.storage != nil && l.fsm != nil && l.log != nil && l.log.glast == l.lastLogIndex
 //@   requires AllNE()
 //@   requires [C03.apply-view] l.commitIndex <= l.lastLogIndex
@@ -56,7 +56,7 @@ package raft
 // STUB (outside area leader)
 // (func isClosed: defined in verif_contracts_membership.go)
 // STUB (outside area leader)
-//@ func (*Raft).isClosed
+//@ func (*Raft).isClosed params(r)
 //@   requires r.storage != nil
 // STUB (outside area leader)
 // (func notLeaderError: defined in verif_contracts_membership.go)
@@ -89,7 +89,7 @@ package raft
 // every OTHER map[uint64]*replication, which cannot be re-stated in an invariant because quantified
 // variables cannot be given a map type). A precise modifies clause therefore fails its frame obligation;
 // `modifies *` is used and the interesting unchanged state is listed explicitly in [C19.release-keeps].
-//@ func (*leader).release
+//@ func (*leader).release params(l)
 // (engine numbering: loop 1 = range l.repls, loop 2 = range l.waitStable, loop 3 = the ne chain)
 //@   requires l.Raft != nil && RaftWF(l.Raft) && l.transfer.timer != nil && l.transfer.newTermTimer != nil && ReplsNonNil(l)
 //@   modifies *
@@ -134,7 +134,7 @@ package raft
 //@ pure ReachableV(l *leader, k uint64) bool = l.configs.Latest.Nodes[k].Voter && (k == l.nid || tzero(l.repls[k].status.noContact.wall, l.repls[k].status.noContact.ext))
 //@ pure NumReachable(l *leader) int = cntv(lam(k, ReachableV(l, k)), keys(l.configs.Latest.Nodes))
 
-//@ func (*leader).checkQuorum
+//@ func (*leader).checkQuorum params(l, wait)
 //@   requires l.Raft != nil && RaftWF(l.Raft) && l.timer != nil && ReplsCover(l)
 //@   modifies l.state, l.leader, all(l.timer)
 //@   props C15
@@ -194,7 +194,7 @@ package raft
 // checkConfigActions runs in this step
 //@ pure RunsActions(l *leader, index uint64) bool = (CommitsCfg(l, index) && !CfgStable(l.configs.Latest)) || (!CommitsCfg(l, index) && CommitReady(l, index))
 
-//@ func (*leader).setCommitIndex
+//@ func (*leader).setCommitIndex params(l, index)
 //@   requires LeaderWF(l) && l.flushed >= l.commitIndex
 //@   requires [C02.leader-commit-rule] l.commitIndex < index && index <= l.lastLogIndex
 //@   modifies l.node, l.numVoters, l.neHead, l.neTail, l.waitStable, l.state, l.leader, l.commitIndex, l.storage.lastLogIndex, l.storage.lastLogTerm, l.storage.gterm, l.storage.gtyp, l.storage.flushed, l.storage.configs, Log.glast, contents(l.repls), replication.status, round.Ordinal, round.Start, round.End, round.LastIndex, newEntry.next, entry.index, entry.term, task.result, task.greplied, contents(l.resolver.addrs), contents(l.connPools), closeRequested, sortgen
@@ -225,7 +225,7 @@ package raft
 //@   loop 1 invariant -1 <= rangeindex && rangeindex < len(l.waitStable)
 //@   loop 1 invariant old(WSDistinct(l)) ==> forall(i, InWS(l, i) && WSTask(l, i) != nil ==> (i <= base(l.waitStable) + rangeindex ==> GRep(WSTask(l, i)) == old(GRep(WSTask(l, i))) + 1) && (i > base(l.waitStable) + rangeindex ==> GRep(WSTask(l, i)) == old(GRep(WSTask(l, i)))))
 
-//@ func (*leader).onMajorityCommit
+//@ func (*leader).onMajorityCommit params(l)
 //@   requires LeaderWF(l) && l.flushed >= l.commitIndex
 //@   modifies l.node, l.numVoters, l.neHead, l.neTail, l.waitStable, l.state, l.leader, l.commitIndex, l.storage.lastLogIndex, l.storage.lastLogTerm, l.storage.gterm, l.storage.gtyp, l.storage.flushed, l.storage.configs, Log.glast, contents(l.repls), replication.status, round.Ordinal, round.Start, round.End, round.LastIndex, newEntry.next, entry.index, entry.term, task.result, task.greplied, contents(l.resolver.addrs), contents(l.connPools), closeRequested, sortgen
 //@   maypanic OpError
@@ -255,7 +255,7 @@ package raft
 //    (every entry occupies at least one byte of storage), needed because the batch length is unbounded
 //  - (*Config).decode: the base contract plus [C18.config-roundtrip]: an entry marked gcfgok decodes, and the
 //    decoded configuration has the properties recorded in the ghost fields gcgood / gcself by (Config).encode
-//@ view (*storage).appendEntry at (*leader).storeEntry
+//@ view (*storage).appendEntry at (*leader).storeEntry params(s, e)
 //@   requires [C04.append-contiguous] e.index == s.lastLogIndex + 1
 //@   requires s.log != nil
 //@   modifies s.lastLogIndex, s.lastLogTerm, s.gterm, s.gtyp, s.log.glast
@@ -264,7 +264,7 @@ package raft
 //@   ensures s.gterm[e.index] == e.term && s.gtyp[e.index] == e.typ
 //@   ensures forall(i, i != e.index ==> s.gterm[i] == old(s.gterm[i]) && s.gtyp[i] == old(s.gtyp[i]))
 //@   ensures [T-storage.index-space] s.lastLogIndex < 18446744073709551615
-//@ view (*Config).decode at (*leader).storeEntry
+//@ view (*Config).decode at (*leader).storeEntry params(c, e)
 //@   modifies all(c)
 //@   ensures result0 == nil ==> c.Index == e.index && c.Term == e.term
 //@   ensures [C18.config-roundtrip] e.gcfgok ==> result0 == nil
@@ -355,7 +355,7 @@ package raft
 
 //@ pure CfgIDs(c Config) bool = forall(k, has(c.Nodes, k) ==> c.Nodes[k].ID == k)
 
-//@ func (*leader).init
+//@ func (*leader).init params(l)
 //@   requires l.Raft != nil && NodeInv(l.Raft) && PoolsInv(l.Raft) && l.transfer.timer != nil && l.transfer.newTermTimer != nil && l.timer != nil && ReplsOK(l) && AllNE() && AllCfgOK(l.nid)
 //@   requires l.lastLogIndex < 18446744073709551615 && l.flushed >= l.commitIndex && CfgIDs(l.configs.Latest)
 //@   requires l.repls != nil && KeyIsID(l.configs.Latest) && NumVoters(l.configs.Latest) >= 1 && forall(k, !has(l.repls, k))
@@ -376,7 +376,7 @@ package raft
 //@   ensures LeaderWF(l)
 //@   loop 1 invariant LeaderBase(l) && LeaderCache(l) && subset(visitedset(), keys(l.configs.Latest.Nodes)) && forall(k, visited(k) && k != l.nid ==> has(l.repls, k) && l.repls[k] != nil) && forall(k, has(l.repls, k) ==> l.repls[k] != nil && l.repls[k].status.matchIndex == 0)
 
-//@ func (*leader).onTimeout
+//@ func (*leader).onTimeout params(l)
 //@   requires l.Raft != nil && RaftWF(l.Raft) && l.timer != nil && ReplsCover(l)
 //@   modifies l.state, l.leader, all(l.timer)
 //@   ensures [C17.quorum-stepdown] NumReachable(l) < NumVoters(l.configs.Latest)/2 + 1 ==> l.state == Follower && l.leader == 0
@@ -385,7 +385,7 @@ package raft
 // STUB (outside area leader)
 // (duplicate of func (*Raft).compactLog removed: defined in verif_contracts_fsm.go)
 
-//@ func (*leader).checkLogCompact
+//@ func (*leader).checkLogCompact params(l)
 //@   requires l.Raft != nil && RaftWF(l.Raft) && l.log != nil && ReplsNonNil(l) && l.removeLTE <= l.snaps.index
 //@   modifies l.log.gprev
 //@   props C15
